@@ -125,6 +125,10 @@ class FakeTransport(asyncio.Transport):
         if (self.lost or self._closing) and not getattr(self, "close_deferred", False):
             self.net.ev("write_dropped", c=self.c, b=list(data), why="closed")
             return
+        if getattr(self, "close_deferred", False):
+            # closing, waiting for the buffer to drain: the data is only queued behind it
+            self.net.ev("write", c=self.c, b=list(data))
+            return
         if self.fault_in:
             self.fault_in -= 1
             if self.fault_in == 0:
